@@ -88,7 +88,7 @@ def merge_streams(outs):
 SPECS = {
     "C01": dict(modules=["Ovldverif.Props.C01"], streams=["fn", "fn_rich", "dep_f", "rewrite"], oracle="C01"),
     "C10": dict(modules=["Ovldverif.Props.C10"], streams=["dep_e", "dep_f", "dep_lit"], oracle="C10"),
-    "C11": dict(modules=["Ovldverif.Props.C11", "Ovldverif.Props.C10"], streams=["dep_e", "dep_f", "dep_lit"], oracle="C11"),
+    "C11": dict(modules=["Ovldverif.Props.C11", "Ovldverif.Props.C10", "Ovldverif.Props.C15"], streams=["dep_e", "dep_f", "dep_lit", "annotations"], oracle="C11"),
     "C02": dict(modules=["Ovldverif.Props.C02"], streams=["table_static", "fn_static", "levels"], oracle="C02"),
     "C03": dict(modules=["Ovldverif.Props.C03"], streams=["fn", "fn_static"], oracle="C03"),
     "C04": dict(modules=["Ovldverif.Props.C04"], streams=["table_static", "table_rich", "fn"], oracle="C04"),
@@ -100,6 +100,8 @@ SPECS = {
     "C16": dict(modules=["Ovldverif.Props.C16"], streams=["graph"], oracle="C16"),
     "C18": dict(modules=["Ovldverif.Props.C18", "Ovldverif.Props.C18Resolve"], streams=["build", "table_cut", "table_cut_rich"], oracle="C18"),
     "C08": dict(modules=["Ovldverif.Props.C08"], streams=["graph", "graph_deep"], oracle="C08"),
+    "C15": dict(modules=["Ovldverif.Props.C15"], streams=["annotations"], oracle="C15"),
+    "C14": dict(modules=["Ovldverif.Props.C14"], streams=["annotations", "fn_types"], oracle="C14"),
     "C17": dict(modules=["Ovldverif.Props.C17", "Ovldverif.Props.C08", "Ovldverif.Props.C16"], streams=["classes"], oracle="C17"),
 }
 
@@ -119,6 +121,8 @@ STREAMS = {
     "rewrite": ("check_rewrite", "worker", lambda seed, n: (seed + 47, n, {}), "H"),
     "rewrite_struct": ("corr_h", "worker", lambda seed, n: (seed + 53, 6 * n, {}), "H"),
     "build": ("check_build", "worker", lambda seed, n: (seed + 59, 2 * n, {}), "I"),
+    "annotations": ("corr_b", "worker", lambda seed, n: (seed + 67, n, {}), "B"),
+    "fn_types": ("check_fn", "worker", lambda seed, n: (seed + 71, n, {"static_only": True, "type_args": True, "simple_sigs": True}), "F"),
     "classes": ("corr_j", "worker", lambda seed, n: (seed + 61, n, {}), "J"),
     "graph": ("check_graph", "worker", lambda seed, n: (seed + 19, n, {}), "G"),
     "graph_deep": ("check_graph", "worker", lambda seed, n: (seed + 23, n, {"nnodes": 6, "recurse_bias": 0.6}), "G"),
